@@ -79,7 +79,7 @@ class Trx:
         self.drop_period = 1
         self.queue = []           # bursts accepted from L1, waiting for their frame
         self.delay_ms = 0
-        self.poisoned = None      # a setting whose documented behaviour is undefined (negative window)
+        self.dirty = False        # hostile control input seen, settings unknown until the recovery script ran (C14)
 
     # addresses
     def sock(self, kind):
@@ -292,6 +292,9 @@ class Model:
                 out[ri] = Expect("nothing")
                 continue
             rxf = r.freq("rx", fn)
+            if s.dirty or r.dirty or b.get("odd"):
+                out[ri] = Expect("unspecified")
+                continue
             if txf is None or rxf is None:
                 out[ri] = Expect("unspecified")       # untuned but running (child powered by its parent)
                 continue
